@@ -5,8 +5,9 @@ SPEC = {
               part("c12_tsan", "tsan", ["c12_threads.cpp", "sched_omp.cpp"], args=["--mode", "free"],
                    env={"TSAN_OPTIONS": "halt_on_error=1 exitcode=66 report_signal_unsafe=0"},
                    timeout={"quick": 1500, "thorough": 7200})],
-    "rule": "3 configurations (3 variables sharing atoms + 3 biases; two-component variable + fitted rmsd + walls + "
-            "metadynamics; scripted-force task) x T = 2..3 (thorough 2..4) threads x ALL schedules with at "
+    "rule": "7 configurations (3 variables sharing atoms + 3 biases; two-component variable + fitted rmsd + walls + "
+            "metadynamics; scripted-force task before and after the biases; three-component variable with the first component switched off; "
+            "multiple-time-step variables over 4 steps; two-component variable calculating total forces one step late) x T = 2..3 (thorough 2..4) threads x ALL schedules with at "
             "most 1 (thorough 2) preemptions of the library's own parallel loops, choice points at region start, thread "
             "start/end, every lock/critical/single/barrier operation and every work-item boundary; every execution on a "
             "fresh module, 2 steps, compared bit-for-bit with the serial run (explicit OpenMP reductions at 1e-12); plus a "
